@@ -328,6 +328,17 @@ class TermInterp:
         if isinstance(s, ast.Expr):
             if isinstance(s.value, ast.Constant):
                 return
+            c = s.value
+            loops = getattr(self, "loops", [])
+            if isinstance(c, ast.Call) and isinstance(c.func, ast.Attribute) and c.func.attr == "append" and isinstance(c.func.value, ast.Name) and len(c.args) == 1 \
+                    and not c.keywords and len(loops) == 1 and loops[0].get("full") and loops[0].get("top_level") is not None and s in loops[0]["top_level"]:
+                # lst = []; for k in range(K): lst.append(v)   ==   the per-index list lst[k] = v
+                name = c.func.value.id
+                base = self.env.get(name)
+                if isinstance(base, (list, tuple)) and len(base) == 0 and name not in loops[0]["lists"]:
+                    ix = loops[0]["idx"]
+                    loops[0]["lists"][name] = VecList(ix.dim, ix.name, self.ev(c.args[0]))
+                    return
             self.ev(s.value)
             return
         if isinstance(s, ast.Assign):
@@ -375,6 +386,19 @@ class TermInterp:
         No loop-carried dependency is accepted (arrays written by the loop cannot be read in it; temporaries must be
         assigned before they are used in each iteration)."""
         it = s.iter
+        if isinstance(it, ast.Call) and norm_src(it.func) in ("combinations", "itertools.combinations") and len(it.args) == 2 and isinstance(it.args[1], ast.Constant) \
+                and it.args[1].value == 2 and isinstance(s.target, ast.Tuple) and len(s.target.elts) == 2 and all(isinstance(e, ast.Name) for e in s.target.elts) \
+                and isinstance(it.args[0], ast.Call) and norm_src(it.args[0].func) == "range" and len(it.args[0].args) == 1 and not s.orelse:
+            # for a, b in combinations(range(K), 2)  ==  for a in range(K): for b in range(a + 1, K)
+            a, b = s.target.elts
+            hi_ = it.args[0].args[0]
+            rng = lambda *args_: ast.Call(func=ast.Name(id="range", ctx=ast.Load()), args=list(args_), keywords=[])
+            inner = ast.For(target=b, iter=rng(ast.BinOp(left=ast.Name(id=a.id, ctx=ast.Load()), op=ast.Add(), right=ast.Constant(value=1)), hi_), body=s.body, orelse=[])
+            outer = ast.For(target=a, iter=rng(hi_), body=[inner], orelse=[])
+            for n_ in (inner, outer):
+                ast.copy_location(n_, s)
+                ast.fix_missing_locations(n_)
+            return self.for_loop(outer)
         if not (isinstance(it, ast.Call) and norm_src(it.func) == "range" and len(it.args) in (1, 2) and isinstance(s.target, ast.Name) and not s.orelse):
             raise Unsupported(f"loop {norm_src(s)[:50]}")
         hi = self.ev(it.args[-1])
@@ -406,7 +430,7 @@ class TermInterp:
         saved_env = dict(self.env)
         for t in temps:
             self.env.pop(t, None)
-        frame = {"idx": ix, "guard": guard, "scatter": {}, "lists": {}}
+        frame = {"idx": ix, "guard": guard, "scatter": {}, "lists": {}, "full": len(it.args) == 1 and d is not None, "top_level": list(s.body)}
         self.loops = getattr(self, "loops", []) + [frame]
         self.env[s.target.id] = ix
         try:
